@@ -748,6 +748,9 @@ def run_c12(tier, budget, rnd) -> StreamResult:
                        f"{rlist(e[:, j])}#{nlist(int(x) for x in a[:, j])}", dict(ctx, repetition=j))
             res.count("evalone-lines")
 
+    # ------------------------------------------------------------------ (A0) stream identity at scale
+    env_stream_oracle(res, rnd, quick, budget)
+
     # ------------------------------------------------------------------ (A) the real ModelInstance
     # seed-respecting generators only; continuous ones feed the independence oracle.  (`graph` and the
     # graph_<distribution> families ignore their generator argument and draw from a module-global unseeded
@@ -769,6 +772,7 @@ def run_c12(tier, budget, rnd) -> StreamResult:
     A_cases.append(("greedy", "graph"))
     A_cases.append(("greedy", "graph_random"))            # deterministic solvers: everything is a function of the seed
     A_cases.append(("largest", "graph_ws_connected"))
+    A_cases.insert(2, ("largest", "xos:n7"))      # 7 players: 119 explorable coalitions, action indices beyond 63
     if not quick:
         A_cases += [("largest", "graph_random"), ("greedy", "graph_ws_connected")]
     for ci, (solver, gen) in enumerate(A_cases * (1 if quick else 3)):
@@ -776,6 +780,9 @@ def run_c12(tier, budget, rnd) -> StreamResult:
             res.notes.append("budget exhausted in the ModelInstance cases")
             break
         n = 3 if ci % 3 == 2 else 4
+        big7 = gen.endswith(":n7")
+        if big7:
+            gen = gen.split(":")[0]
         reps = reps_list[ci % len(reps_list)] if ci >= 2 else (13 if ci == 0 else 9 if quick else 17)
         limit = rnd.choice([2, 3]) if n == 4 else rnd.choice([2, 3, 4])
         seed = rnd.randrange(1, 10 ** 6)
@@ -786,6 +793,8 @@ def run_c12(tier, budget, rnd) -> StreamResult:
         seedgraph = gen in gens_graph_seeded
         rng_key = "evaluate:unseeded-module-generator" if unseeded else \
             "evaluate:seed-not-respected" if seedgraph else "evaluate:shared-generator-rng"
+        if big7:
+            n, reps, limit, plist = 7, 2, 4, [1, 2]
         if unseeded:
             n, reps, plist = 4, 8, [1, 2, 3]
         if seedgraph:
@@ -1035,6 +1044,117 @@ def run_c12(tier, budget, rnd) -> StreamResult:
     except OSError:
         pass
     return res
+
+
+def _find_rng(obj, depth=0):
+    """the numpy Generator an environment's hidden-game generator draws from (partial args / closure cells / attributes)"""
+    if isinstance(obj, np.random.Generator):
+        return obj
+    if depth > 3 or obj is None:
+        return None
+    cands = []
+    if hasattr(obj, "args") and hasattr(obj, "func"):
+        cands += list(obj.args) + list((obj.keywords or {}).values()) + [obj.func]
+    if getattr(obj, "__closure__", None):
+        for cell in obj.__closure__:
+            try:
+                cands.append(cell.cell_contents)
+            except ValueError:
+                pass
+    if getattr(obj, "__self__", None) is not None:
+        cands.append(obj.__self__)
+    for c in cands:
+        r = _find_rng(c, depth + 1)
+        if r is not None:
+            return r
+    return None
+
+
+def _stream_id(rng):
+    st = rng.bit_generator.state
+    inner = st.get("state")
+    return (st.get("bit_generator"), repr(sorted(inner.items())) if isinstance(inner, dict) else repr(inner))
+
+
+def _env_streams(seed, count, real=()):
+    """`count` environments of one ModelInstance(seed), built by the real get_env with the gym constructor stubbed out (29 µs each
+    instead of 2 ms); indices in `real` are built for real.  → (list of stream ids | None, {index: real env})"""
+    import incomplete_cooperative.run.model as RM
+
+    class _Stub:
+        def __init__(self, game, generator, *a, **k):
+            self.generator = generator
+    inst = RM.ModelInstance(number_of_players=3, game_generator="noisy_factory", seed=seed)
+    saved = RM.ICG_Gym
+    ids, envs = [], {}
+    try:
+        for i in range(count):
+            RM.ICG_Gym = saved if i in real else _Stub
+            env = inst.get_env()
+            gen = getattr(env, "generator", None)
+            rng = _find_rng(gen)
+            if rng is None:
+                return None, envs
+            ids.append(_stream_id(rng))
+            if i in real:
+                envs[i] = env
+    finally:
+        RM.ICG_Gym = saved
+    return ids, envs
+
+
+def env_stream_oracle(res, rnd, quick, budget) -> None:
+    """'Repetitions use independent hidden games' at the scale sampling of seeds cannot reach: the hidden-game streams of the first
+    R environments of one ModelInstance (R = 250 000 / 1 200 000) must be pairwise distinct.  Two environments with the same
+    stream state replay one another's hidden games whatever the solver / process count; streams that are children of one
+    SeedSequence are distinct by construction, streams seeded by short random draws collide by the birthday bound.  A collision
+    is confirmed on two really built environments (same hidden games after reset) before it is reported."""
+    R = 250_000 if quick else 1_200_000
+    seed = rnd.randrange(1, 10 ** 9)
+    try:
+        ids, _ = _env_streams(seed, R)
+    except Exception as ex:      # noqa: BLE001   (the stub does not fit a refactored get_env: no verdict from this oracle)
+        res.notes.append(f"env-stream oracle not applicable to this get_env ({type(ex).__name__}: {ex})")
+        return
+    if ids is None:
+        res.notes.append("env-stream oracle: the environment's generator does not expose its numpy Generator; skipped")
+        return
+    res.evaluations += 1
+    res.count("env-streams-compared", len(ids))
+    first = {}
+    for i, k in enumerate(ids):
+        if k in first:
+            j = first[k]
+            ctx = {"source": "ModelInstance.env_streams", "seed": seed, "n": 3, "game_generator": "noisy_factory", "environments": [j, i]}
+            ok, msg = replay_env_streams(ctx)
+            if ok:
+                res.violation(f"environments {j} and {i} of one ModelInstance draw their hidden games from identical streams: "
+                              "repetitions replay one another's games", dict(ctx, confirmed=msg), key="evaluate:env-stream-collision")
+            else:
+                res.notes.append(f"env-stream oracle: equal stream ids for environments {j} and {i} but different games; ignored")
+            return
+        first[k] = i
+    res.nontrivial.add(("env-streams", len(ids)))
+
+
+def replay_env_streams(inp: dict):
+    i, j = inp["environments"]
+    ids, envs = _env_streams(inp["seed"], max(i, j) + 1, real=(i, j))
+    if ids is None or i not in envs or j not in envs:
+        return False, "could not rebuild the two environments"
+    games = []
+    for k in (i, j):
+        e = envs[k]
+        row = []
+        for _ in range(3):
+            e.reset()
+            row.append(tuple(float(x) for x in e.full_game.get_values()))
+        games.append(row)
+    if games[0] == games[1]:
+        return True, (f"reproduced on the real code: environments {i} and {j} of ModelInstance(seed={inp['seed']}, noisy_factory, n=3) are "
+                      f"evaluated on the same three hidden games {games[0][0][:4]}…")
+    return False, "the two environments draw different hidden games"
+
 
 
 # ----------------------------------------------------------------------------------------------
@@ -1506,6 +1626,8 @@ def replay(prop: str, payload: dict):
         return replay_c11_best(inp)
     if prop == "C13" and "sampled_games" in inp and "max_steps" in inp:
         return replay_c13_greedy(inp)
+    if prop == "C12" and inp.get("source") == "ModelInstance.env_streams":
+        return replay_env_streams(inp)
     if prop != "C12" or inp.get("source") != "ModelInstance.get_env":
         return False, "this replay holds the complete failing input; no re-runner for it"
     from incomplete_cooperative.evaluation import evaluate
